@@ -74,6 +74,25 @@ func verifC11RespBytes(cert bool) []byte {
 	return buf.Bytes()
 }
 
+// verifC11BigResp is a framed, decodable ServerCompatResponse whose message is exactly size bytes
+// (a long host name).
+func verifC11BigResp(size int) []byte {
+	for pad := size - 16; pad <= size; pad++ {
+		host := bytes.Repeat([]byte{'h'}, pad)
+		data, err := proto.Marshal(&conformancev1.ServerCompatResponse{Host: string(host), Port: 1})
+		if err != nil {
+			panic(err)
+		}
+		if len(data) == size {
+			out := make([]byte, 4+len(data))
+			binary.BigEndian.PutUint32(out, uint32(len(data)))
+			copy(out[4:], data)
+			return out
+		}
+	}
+	panic("c11: cannot build a response of the requested size")
+}
+
 type verifC11Proc struct {
 	mu      sync.Mutex
 	done    bool
@@ -160,6 +179,12 @@ func (r *verifC11Stdout) Read(b []byte) (int, error) {
 	}
 	if r.offs == len(r.data)-1 && r.atLast != nil {
 		r.atLast()
+	}
+	if rest := len(r.data) - r.offs; rest > 64 {
+		// bulk of a large message: in blocks (the last 64 bytes still come one by one)
+		n := copy(b, r.data[r.offs:len(r.data)-64])
+		r.offs += n
+		return n, nil
 	}
 	b[0] = r.data[r.offs]
 	r.offs++
@@ -335,9 +360,13 @@ func VerifC11Run(spec VerifC11Spec) VerifC11Obs {
 			out.data = verifC11RespBytes(true)
 		case "garbage":
 			out.data = []byte{0, 0, 0, 3, 0xff, 0xff, 0xff}
-		case "oversize":
+		case "overshort": // only the prefix of an oversized message
 			out.data = make([]byte, 4)
 			binary.BigEndian.PutUint32(out.data, uint32(maxServerResponseSize+1))
+		case "oversize": // a complete, well-formed message of limit+1 bytes
+			out.data = verifC11BigResp(maxServerResponseSize + 1)
+		case "limit": // a complete, well-formed message of exactly the limit
+			out.data = verifC11BigResp(maxServerResponseSize)
 		case "zero":
 			out.data = []byte{0, 0, 0, 0}
 		case "cut":
